@@ -30,7 +30,7 @@ def plan(tier, seed):
     specs = []
     for b in range(6 if q else 24):
         specs.append({"name": "history-%d" % b, "kind": "history", "b": b, "len": [12, 6, 20, 40, 8, 16][b % 6] if q else int(6 + (b * 7) % 35), "cpus": 3, "timeout": 2400})
-    specs.append({"name": "layout", "kind": "layout", "timeout": 2400})
+    specs.append({"name": "layout", "kind": "layout", "once": True, "timeout": 2400})
     specs.append({"name": "catalogue", "kind": "catalogue", "timeout": 2400, "cpus": 4})
     if not q:
         specs.append({"name": "asan-layout", "kind": "layout", "build": "asan", "timeout": 3000})
